@@ -94,6 +94,10 @@ structure M where
   maxDepth : Nat := 50           -- __MAX_CALL_DEPTH__ (rc.cpp default; `maxdepth <n>` lowers it per case)
   staleCatch : Bool := false     -- what a read of the (stale) frame above csp yields for "is it FRAME_CATCH"
   lastVerb : Val := 0            -- last_verb (simulate.c): the verb of the command being executed, 0 = none
+  masterName : Val := 1          -- master_ob->name (an opaque value; 0 = the empty string "")
+  simulName : Val := 2           -- simul_efun_ob->name
+  savedMasterName : Val := 0     -- static saved_master_name (simulate.c): what fix_object_names puts back
+  savedSimulName : Val := 0      -- static saved_simul_name
   hbCur : Val := 0               -- current_heart_beat (backend.c): the object whose heart_beat() is running, 0 = none
   hbOff : List Val := []         -- objects whose heart beat error_handler has switched off (set_heart_beat (ob, 0)), newest first
   deriving Repr, Inhabited
@@ -117,12 +121,22 @@ def popFrame (m : M) : Option M :=
   | [] => none
   | f :: rest => some { m with r := f.saved, cs := rest }
 
+/-- the id of the T_ERROR_HANDLER slot whose handler is `fix_object_names` (destruct_object of a vital object) -/
+def fixNamesId : Nat := 0
+
+/-- what the handler of a T_ERROR_HANDLER slot does besides being recorded in `ran`: `fix_object_names` puts the two
+    recorded names back (`master_ob->name = saved_master_name; simul_efun_ob->name = saved_simul_name;`); the handlers of
+    unique_array / sort_array / unique_mapping / parse_command only release C memory -/
+def runSlotHandler (id : Nat) (m : M) : M :=
+  { m with masterName := if id == fixNamesId then m.savedMasterName else m.masterName,
+           simulName := if id == fixNamesId then m.savedSimulName else m.simulName }
+
 /-- pop_stack: free_svalue runs the handler of a T_ERROR_HANDLER slot -/
 def popStack (m : M) : Option M :=
   match m.vs with
   | [] => none
   | .val :: t => some { m with vs := t }
-  | .handler id :: t => some { m with vs := t, ran := id :: m.ran }
+  | .handler id :: t => some (runSlotHandler id { m with vs := t, ran := id :: m.ran })
 
 def popN : Nat → M → Option M
   | 0, m => some m
@@ -319,6 +333,8 @@ inductive Op
   | raiseLimit                                  -- eval cost exhausted: sets ES_MAX_EVAL_COST, raises
   | load (body : Prog)                          -- load_object: ++num_objects_this_thread ... --
   | dhook (v : Val) (body : Prog)               -- destruct_object: restrict_destruct = v around the move_or_destruct apply
+  | vital (isMaster : Bool) (body : Prog)       -- destruct_object of the master / simul_efun object: push the fix_object_names
+                                                -- slot, record both names, blank the object's name, reload (body); `sp--`, name back
   | verb (v : Val) (body : Prog)                -- user_parser (simulate.c): `last_verb = …` around the call of a verb function,
                                                 -- `last_verb = 0` after it returned (normal path only)
   | heartBeat (ob cgv : Val) (body : Prog)      -- call_heart_beat (backend.c), one object: current_heart_beat = ob; command_giver = ob
@@ -503,16 +519,25 @@ def withCgFinish (cg : Val) (r : Res) : Res :=
   | .ok m1 => .ok { m1 with cg := cg }
   | r => r
 
-/-- load_object: `num_objects_this_thread--` on the normal path only -/
-def loadFinish (r : Res) : Res :=
+/-- load_object: `command_giver = save_command_giver; … num_objects_this_thread--;` on the normal path only -/
+def loadFinish (cg : Val) (r : Res) : Res :=
   match r with
-  | .ok m1 => .ok { m1 with loadDepth := m1.loadDepth - 1 }
+  | .ok m1 => .ok { m1 with loadDepth := m1.loadDepth - 1, cg := cg }
   | r => r
 
 /-- destruct_object: `restrict_destruct = save_restrict_destruct` on the normal path only -/
 def dhookFinish (v : Val) (r : Res) : Res :=
   match r with
   | .ok m1 => .ok { m1 with restrictDestruct := v }
+  | r => r
+
+/-- destruct_object of a vital object after the reload succeeded: set_master / set_simul_efun, `sp--` (the handler does not
+    run), `ob->name = tmp` (the new copy carries the same name) -/
+def vitalFinish (isMaster : Bool) (tmp : Val) (r : Res) : Res :=
+  match r with
+  | .ok m1 => match dropTop m1 with
+    | some m2 => .ok (if isMaster then { m2 with masterName := tmp } else { m2 with simulName := tmp })
+    | none => .crash "value stack underflow" m1
   | r => r
 
 /-- user_parser after the verb function returned: `last_verb = 0` -/
@@ -614,8 +639,18 @@ def execCore : Op → M → Res
   | .throw_ v, m => throwVal v m
   | .raiseLimit, m =>
     raise "*Too long evaluation. Execution aborted." { m with errState := m.errState ||| Gen.C05.esMaxEvalCost }
-  | .load body, m => loadFinish (exec body { m with loadDepth := m.loadDepth + 1 })
+  | .load body, m => loadFinish m.cg (exec body { m with loadDepth := m.loadDepth + 1 })
   | .dhook v body, m => dhookFinish m.restrictDestruct (exec body { m with restrictDestruct := v })
+  | .vital isMaster body, m =>
+    -- destruct_object (simulate.c): `(++sp)->type = T_ERROR_HANDLER; … = fix_object_names; saved_master_name = …;
+    -- saved_simul_name = …; ob->name = "";` — the names are recorded BEFORE the name is blanked
+    -- (a destruct of the same object from inside its own reload is refused first: its name is blank then)
+    if (if isMaster then m.masterName else m.simulName) == 0 then
+      raise "*Destruction of vital object is already in progress." m
+    else
+    let m1 : M := { m with vs := Slot.handler fixNamesId :: m.vs, savedMasterName := m.masterName, savedSimulName := m.simulName }
+    let m2 : M := if isMaster then { m1 with masterName := 0 } else { m1 with simulName := 0 }
+    vitalFinish isMaster (if isMaster then m.masterName else m.simulName) (exec body m2)
   | .verb v body, m => verbFinish (exec body { m with lastVerb := v })
   | .heartBeat ob cgv body, m =>
     -- call_heart_beat: the registers are set BEFORE the frame is pushed by call_function (push_control_stack, FRAME_FUNCTION |
